@@ -4,6 +4,7 @@ import (
 	"encoding/binary"
 	"encoding/json"
 	"fmt"
+	cid "github.com/ipfs/go-cid"
 	"strings"
 
 	"berty.tech/go-ipfs-log/entry"
@@ -515,6 +516,56 @@ func runFreshHeadFamily(c *explore.Ctx, a C12Arg, w *MalformedWorld) {
 			return
 		}
 		w.expected[head.Hash.String()] = true
+		c.Flush()
+	}
+	// well-formed heads, genuinely signed by the allowed writer, whose link cannot be followed to an entry (it
+	// names a block that is no entry, or a genuine entry under another codec): the fetch of the link fails
+	// inside the replicator. The very next valid announcement must be merged all the same.
+	for k, kind := range []string{"junklink", "aliaslink", "junklink-twice"} {
+		id := "fresh:crafted-" + kind
+		if explore.ReplayOnly != nil {
+			if len(explore.ReplayOnly) == 0 || a.Entry+" "+id != explore.ReplayOnly[0] {
+				continue
+			}
+		} else if a.Chunks > 1 && (len(cases)+k)%a.Chunks != a.Chunk {
+			continue
+		}
+		c.JournalCase(len(cases)+k, a.Entry+" "+id)
+		link := w.sa.Address().GetRoot()
+		if kind == "aliaslink" {
+			link = cid.NewCidV1(cid.Raw, w.sa.OpLog().Heads().Slice()[0].GetHash().Hash())
+		}
+		rounds := 1
+		if kind == "junklink-twice" {
+			rounds = 2
+		}
+		for r := 0; r < rounds; r++ {
+			w.probes++
+			crafted, err := Forge(w.A.Peer.API(), ForgeSpec{LogID: w.addr, Payload: addPayload(fmt.Sprintf("crafted%d", w.probes)), Time: 1000 + w.probes, Signer: w.A.DB.Identity(), Next: []cid.Cid{link}})
+			if err != nil {
+				c.Stats.HarnessErrs = append(c.Stats.HarnessErrs, "forge: "+err.Error())
+				return
+			}
+			msg, _ := json.Marshal(&iface.MessageExchangeHeads{Address: w.addr, Heads: []*entry.Entry{crafted}})
+			w.FeedMessage(msg)
+			if err := sim.Quiesce(); err != nil {
+				c.Stats.Violate(explore.Violation{Property: "C12", Signature: "hang-after-malformed-input:" + a.Entry, Detail: id, History: []string{a.Entry + " " + id}})
+				return
+			}
+		}
+		c.Stats.Executions++
+		c.Stats.Transitions++
+		c.Stats.Checks++
+		c.Stats.State("C12|" + a.Entry + "|" + id)
+		c.Stats.NontrivialCase(a.Entry + "|" + id)
+		if msg := w.Unchanged(); msg != "" {
+			c.Stats.Violate(explore.Violation{Property: "C12", Signature: "malformed-input-changed-state:" + a.Entry + ":fresh", Detail: id + ": " + msg, History: []string{a.Entry + " " + id}})
+			return
+		}
+		if msg := w.Probe(); msg != "" {
+			c.Stats.Violate(explore.Violation{Property: "C12", Signature: "listener-dead-after-malformed-input:" + a.Entry, Detail: "after " + id + ": " + msg, History: []string{a.Entry + " " + id}})
+			return
+		}
 		c.Flush()
 	}
 }
